@@ -170,7 +170,43 @@ impl<const N: usize> St<N> {
 /// Materialise an abstract state in a real table (real allocator, real layout computation).
 /// Control bytes are written from `spec_ctrl`, not through `set_ctrl`.
 pub fn build<const N: usize>(st: &St<N>) -> RawTable<u64> {
-    let mut t: RawTable<u64> = RawTable::with_capacity(St::<N>::CAP);
+    build_t::<u64, N>(st)
+}
+
+/// Element types the obligations instantiate the tables with.  Every element carries an
+/// identity `id` (what Hash/Eq look at), and optionally a payload `aux` and a `stamp` that
+/// Eq ignores (to observe which of two equal keys is stored).
+pub trait Elt: Sized {
+    fn make(id: u64, aux: u64, stamp: u64) -> Self;
+    fn id(&self) -> u64;
+    fn aux(&self) -> u64 {
+        0
+    }
+    fn stamp(&self) -> u64 {
+        0
+    }
+}
+impl Elt for u64 {
+    fn make(id: u64, _aux: u64, _stamp: u64) -> Self {
+        id
+    }
+    fn id(&self) -> u64 {
+        *self
+    }
+}
+
+/// stored elements of a state built by `build_t` get these payloads (functions of id and slot)
+#[inline]
+pub fn aux_of(id: u64, slot: usize) -> u64 {
+    id.rotate_left(13) ^ (slot as u64).wrapping_mul(0x9E37_79B9)
+}
+#[inline]
+pub fn stamp_of(id: u64, slot: usize) -> u64 {
+    0x5700_0000_0000_0000 | (slot as u64) << 8 | (id & 0xFF)
+}
+
+pub fn build_t<T: Elt, const N: usize>(st: &St<N>) -> RawTable<T> {
+    let mut t: RawTable<T> = RawTable::with_capacity(St::<N>::CAP);
     debug_assert!(t.buckets() == N);
     unsafe {
         let c = t.table.ctrl.as_ptr();
@@ -179,7 +215,7 @@ pub fn build<const N: usize>(st: &St<N>) -> RawTable<u64> {
         });
         for_upto!(i, N, {
             if st.kind[i] == K_FULL {
-                t.bucket(i).write(st.val[i]);
+                t.bucket(i).write(T::make(st.val[i], aux_of(st.val[i], i), stamp_of(st.val[i], i)));
             }
         });
     }
